@@ -216,23 +216,16 @@ public:
 
     IndexType getIndexFromBoxPos(const std::array<long int,Dim>& inBoxPos) const{
         IndexType index = 0x0LL;
-        IndexType mask = 0x1LL;
 
-        bool shouldContinue = false;
-
-        std::array<IndexType,Dim> mcoord;
+        long int allCoords = 0;
         for(long int idxDim = 0 ; idxDim < Dim ; ++idxDim){
-            mcoord[idxDim] = (inBoxPos[idxDim] << (Dim - idxDim - 1));
-            shouldContinue |= ((mask << (Dim - idxDim - 1)) <= mcoord[idxDim]);
+            allCoords |= inBoxPos[idxDim];
         }
 
-        while(shouldContinue){
-            shouldContinue = false;
-            for(long int idxDim = Dim-1 ; idxDim >= 0 ; --idxDim){
-                index |= (mcoord[idxDim] & mask);
-                mask <<= 1;
-                mcoord[idxDim] <<= (Dim-1);
-                shouldContinue |= ((mask << (Dim - idxDim - 1)) <= mcoord[idxDim]);
+        // Bit idxBit of dimension idxDim goes to bit (idxBit*Dim + Dim-1-idxDim) of the index
+        for(long int idxBit = 0 ; (allCoords >> idxBit) != 0 ; ++idxBit){
+            for(long int idxDim = 0 ; idxDim < Dim ; ++idxDim){
+                index |= (IndexType((inBoxPos[idxDim] >> idxBit) & 0x1L) << (idxBit*Dim + (Dim - 1 - idxDim)));
             }
         }
 
